@@ -6,7 +6,7 @@ point, a program of the buffer-ownership IR of lean/PersimVerif/Model/IR.lean, t
 generated obligations into lean/PersimVerif/Generated/ApiIR.lean.
 
 Public = no leading underscore, plus the module-level helpers `_transform` and `_p_norm`; constructors and the
-dunder operators of public classes count as public.
+dunder operators of public classes count as public; `__init__.py` files are modules like any other.
 
 The translation is an abstract interpretation of the function body that forgets values and keeps references:
 
@@ -19,13 +19,19 @@ The translation is an abstract interpretation of the function body that forgets 
   applies every function value it is known to hold; a call through anything the translator cannot resolve is an UNKNOWN CALL,
   which may write everything reachable from its arguments and its receiver (`Frame.unknown_call`);
 * subscripts / iteration / unpacking give `copy`+`elem` (a view of the same buffer, or an element of the container);
-* `x.attr = v` is `setattr` (an instance's attribute table is not an array or list), `x.attr` is `elem`.
+* `self.attr = v` (and `x.attr = v` for an attribute name persim classes define) is `setattr` (an instance's attribute table is not
+  an array or list), any other attribute assignment is a write of `x`; `x.attr` is `elem`;
+* what is NOT modelled is refused, never skipped (audit 3): decorators, module-level code other than imports / defs / classes /
+  plain data, names bound twice, class-body code, `__init__.py` rebinding (ModuleInfo.problems / ClassInfo.problems ->
+  TranslatorError for every entry point that runs such code); the only statements left out are the `_VERIF_*` hooks listed WORD
+  FOR WORD in policy.json; obligations of the committed list expected_obligations.json that are no longer generated are reported
+  by the generated obligation `expected_obligations_present`.
 
 Nothing here decides the property: the emitted programs are checked by the Lean checker (`safe`), whose soundness is
 `PersimVerif.C19.checked_no_owned_write`; `wellFormed` (obligation `wf_<entry>`) checks that no instruction reads a variable
 that nothing defines, so that a dropped defining instruction is an error and not an empty points-to set.
 """
-import ast, os, json, sys
+import ast, os, json, re, sys
 from . import tables as T
 
 if hasattr(sys, "set_int_max_str_digits"):
@@ -53,40 +59,121 @@ def canon(dotted):
 
 # ------------------------------------------------------------------------------------------------ project model
 
+BUILTIN_NAMES = set(dir(__import__("builtins")))
+FUNC_DECORATORS = {"staticmethod", "abstractmethod", "abc.abstractmethod", "property"}
+
+
+def is_docstring(st):
+    return isinstance(st, ast.Expr) and isinstance(st.value, ast.Constant) and isinstance(st.value.value, str)
+
+
+def single_name_target(st):
+    """`NAME = value` / `NAME: T = value`: the name, else None"""
+    if isinstance(st, ast.Assign) and len(st.targets) == 1 and isinstance(st.targets[0], ast.Name):
+        return st.targets[0].id
+    if isinstance(st, ast.AnnAssign) and isinstance(st.target, ast.Name):
+        return st.target.id
+    return None
+
+
+def def_time_exprs(fn):
+    """expressions a `def` evaluates when it is EXECUTED (at import, for module-level functions and methods): default values and
+    annotations"""
+    a = fn.args
+    out = [("default value", e) for e in list(a.defaults) + [e for e in a.kw_defaults if e is not None]]
+    for p in a.posonlyargs + a.args + a.kwonlyargs + [x for x in (a.vararg, a.kwarg) if x]:
+        if p.annotation is not None:
+            out.append(("annotation", p.annotation))
+    if fn.returns is not None:
+        out.append(("annotation", fn.returns))
+    return out
+
+
+def runs_code(e):
+    return any(isinstance(n, (ast.Call, ast.Lambda, ast.NamedExpr, ast.Await, ast.Yield, ast.YieldFrom, ast.ListComp, ast.SetComp,
+                              ast.DictComp, ast.GeneratorExp)) for n in ast.walk(e))
+
+
 class ClassInfo:
-    def __init__(self, module, node):
+    def __init__(self, module, node, policy=None):
         self.module, self.node, self.name = module, node, node.name
         self.bases = [b.id if isinstance(b, ast.Name) else (b.attr if isinstance(b, ast.Attribute) else None) for b in node.bases]
         self.methods, self.getters, self.setters, self.static = {}, {}, {}, set()
-        for st in node.body:
+        self.problems = []            # what makes the class's `def`s NOT what the class's attributes are at run time (audit R6)
+        self.bad_decorators = {}      # id(FunctionDef) -> decorator text the translator does not model
+        self.data_names = set()
+        reviewed = (policy or {}).get("decorators_reviewed", {}).get("%s.%s" % (module.name, node.name), [])
+        for d in node.decorator_list:
+            if ast.unparse(d) not in reviewed:
+                self.problems.append("class decorator `%s` is not in policy.json decorators_reviewed" % ast.unparse(d)[:80])
+        if node.keywords:
+            self.problems.append("class keywords (metaclass=…) are not modelled")
+        for b in node.bases:
+            if runs_code(b):
+                self.problems.append("base class `%s` is computed" % ast.unparse(b)[:60])
+        bound = {}
+        for i, st in enumerate(node.body):
             if isinstance(st, ast.FunctionDef):
                 decos = [ast.unparse(d) for d in st.decorator_list]
+                for d in decos:
+                    if d not in FUNC_DECORATORS and not (d.endswith(".setter") and d[:-7] in self.getters):
+                        self.bad_decorators[id(st)] = d
+                module.check_def(st, self.problems)
                 if "property" in decos:
                     self.getters[st.name] = st
+                    bound.setdefault(st.name, []).append("getter")
                 elif any(d.endswith(".setter") for d in decos):
                     self.setters[st.name] = st
+                    bound.setdefault(st.name, []).append("setter")
                 else:
                     self.methods[st.name] = st
+                    bound.setdefault(st.name, []).append("def")
                     if "staticmethod" in decos:
                         self.static.add(st.name)
+            elif is_docstring(st) or isinstance(st, ast.Pass):
+                pass
+            elif single_name_target(st) is not None:
+                bound.setdefault(single_name_target(st), []).append("data")
+                self.data_names.add(single_name_target(st))
+                if st.value is not None and not module.plain_data(st.value):
+                    self.problems.append("class-level binding `%s` is not plain data" % ast.unparse(st)[:80])
+            else:
+                self.problems.append("class-body statement `%s` is not modelled" % ast.unparse(st)[:80].split("\n")[0])
+        for n, kinds in bound.items():
+            if len(kinds) > 1 and sorted(kinds) != ["getter", "setter"]:
+                self.problems.append("`%s` is bound %d times in the class body (%s)" % (n, len(kinds), ", ".join(kinds)))
 
 
 class ModuleInfo:
-    def __init__(self, name, path, src):
+    def __init__(self, name, path, src, policy=None):
         self.name, self.path = name, path
         self.tree = ast.parse(src)
         self.lines = src.split("\n")
         self.funcs, self.classes, self.imports, self.data = {}, {}, {}, {}
         self.global_decls = set()
+        self.star_imports = []
+        self.problems = []            # module-level code the translator does not model: every entry point that runs code of
+                                      # this module is untranslatable (audit R6: `f = wrap(f)`, conditional / repeated defs,
+                                      # tuple bindings, `globals().update(…)`, code in `__init__.py`)
+        self.bad_decorators = {}      # id(FunctionDef) -> decorator text
+        self.hooks = {}               # reviewed `_VERIF_*` hook name -> set of reviewed guarded statements (policy.json)
+        reviewed = (policy or {}).get("verif_hooks", {}).get(name, {})
         pkg = name.split(".")[:-1]
-        for st in self.tree.body:
+        bound, values, class_nodes, defs = {}, [], [], []
+        for i, st in enumerate(self.tree.body):
             if isinstance(st, ast.FunctionDef):
                 self.funcs[st.name] = st
+                bound.setdefault(st.name, []).append("def")
+                for d in st.decorator_list:
+                    self.bad_decorators[id(st)] = ast.unparse(d)
+                defs.append(st)
             elif isinstance(st, ast.ClassDef):
-                self.classes[st.name] = ClassInfo(self, st)
+                class_nodes.append(st)
+                bound.setdefault(st.name, []).append("class")
             elif isinstance(st, ast.Import):
                 for a in st.names:
                     self.imports[a.asname or a.name.split(".")[0]] = ("ext", a.name if a.asname else a.name.split(".")[0])
+                    bound.setdefault(a.asname or a.name.split(".")[0], []).append("import")
             elif isinstance(st, ast.ImportFrom):
                 if st.level > 0:
                     base = (["persim"] + pkg)[: len(pkg) + 2 - st.level]
@@ -94,15 +181,65 @@ class ModuleInfo:
                 else:
                     mod = st.module or ""
                 for a in st.names:
+                    if a.name == "*":
+                        self.star_imports.append(mod)
+                        continue
                     self.imports[a.asname or a.name] = ("from", mod, a.name)
-            elif isinstance(st, (ast.Assign, ast.AnnAssign)):
-                tg = st.targets if isinstance(st, ast.Assign) else [st.target]
-                for t in tg:
-                    if isinstance(t, ast.Name):
-                        self.data[t.id] = st
+                    bound.setdefault(a.asname or a.name, []).append("import")
+                    priv = a.name.startswith("_") and not (a.name.startswith("__") and a.name.endswith("__"))
+                    if (mod == "persim" or mod.startswith("persim.")) and priv and not (a.asname or a.name).startswith("_"):
+                        self.problems.append("`%s` makes a private name public" % ast.unparse(st)[:80])
+            elif i == 0 and is_docstring(st):
+                pass
+            elif single_name_target(st) is not None:
+                n = single_name_target(st)
+                self.data[n] = st
+                bound.setdefault(n, []).append("data")
+                if st.value is not None:
+                    values.append(st)
+                if n in reviewed and ast.unparse(st) == reviewed[n].get("binding"):
+                    self.hooks[n] = set(reviewed[n].get("statements", []))
+            else:
+                self.problems.append("module-level statement `%s` is not modelled" % ast.unparse(st)[:80].split("\n")[0])
+                for n in ast.walk(st):        # what it binds is module-level state all the same
+                    if isinstance(n, ast.Name) and isinstance(n.ctx, ast.Store):
+                        self.data.setdefault(n.id, st)
+        for n, kinds in bound.items():
+            if len(kinds) > 1 and set(kinds) != {"import"}:
+                self.problems.append("module-level name `%s` is bound %d times (%s)" % (n, len(kinds), ", ".join(kinds)))
+        for st in values:
+            if not self.plain_data(st.value):
+                self.problems.append("module-level binding `%s` is not plain data (it may name or wrap a function)" % ast.unparse(st)[:80])
+        for st in defs:
+            self.check_def(st, self.problems)
+        for st in class_nodes:
+            self.classes[st.name] = ClassInfo(self, st, policy)
         for n in ast.walk(self.tree):
             if isinstance(n, ast.Global):
                 self.global_decls.update(n.names)
+            elif isinstance(n, ast.AsyncFunctionDef):
+                self.problems.append("async def %s is not modelled" % n.name)
+
+    def check_def(self, fn, problems):
+        """default values and annotations of a module-level function / method are evaluated at import: anything that runs code
+        there must be plain data (`order=np.array([0.5, 1])`), not a call of persim code (`_p=_install()`)"""
+        for what, e in def_time_exprs(fn):
+            if runs_code(e) and not self.plain_data(e):
+                problems.append("%s `%s` of %s runs code at import" % (what, ast.unparse(e)[:60], fn.name))
+
+    def plain_data(self, e):
+        """module- / class-level data: literals, operators, conditional expressions, calls and attributes of NON-persim library
+        names; no lambda, no comprehension, no name of this module (a function, a class, other data)"""
+        for n in ast.walk(e):
+            if isinstance(n, (ast.Lambda, ast.NamedExpr, ast.Await, ast.Yield, ast.YieldFrom, ast.GeneratorExp, ast.ListComp,
+                              ast.SetComp, ast.DictComp, ast.Starred)):
+                return False
+            if isinstance(n, ast.Name):
+                imp = self.imports.get(n.id)
+                ext = imp is not None and not (imp[1] == "persim" or imp[1].startswith("persim."))
+                if not ext and not (n.id in BUILTIN_NAMES and n.id not in self.funcs and n.id not in self.classes and n.id not in self.data):
+                    return False
+        return True
 
 
 class EntryPoint:
@@ -118,11 +255,11 @@ class EntryPoint:
 class Project:
     """the parsed `persim` package (or a set of snippet modules for the self-test)"""
 
-    def __init__(self, root=None, sources=None):
+    def __init__(self, root=None, sources=None, policy=None):
         self.modules = {}
         if sources is not None:
             for name, src in sources.items():
-                self.modules[name] = ModuleInfo(name, "<snippet:%s>" % name, src)
+                self.modules[name] = ModuleInfo(name, "<snippet:%s>" % name, src, policy)
         else:
             base = os.path.join(root, "persim")
             for d, dirs, files in sorted(os.walk(base)):
@@ -131,21 +268,41 @@ class Project:
                     if not f.endswith(".py") or f in ("_version.py",):
                         continue
                     rel = os.path.relpath(os.path.join(d, f), base)[:-3].replace(os.sep, ".")
-                    if rel.endswith("__init__"):
-                        continue
+                    # `__init__.py` files are modules like any other (audit R6): what they define is public, what they
+                    # rebind changes what `persim.<name>` is
                     with open(os.path.join(d, f)) as fh:
-                        self.modules[rel] = ModuleInfo(rel, os.path.join("persim", rel.replace(".", "/") + ".py"), fh.read())
+                        self.modules[rel] = ModuleInfo(rel, os.path.join("persim", rel.replace(".", "/") + ".py"), fh.read(), policy)
         self.method_index = {}
+        self.instance_attrs = set()       # attribute names of persim instances: `self.x = …` in some method, class-level
+                                          # data, properties.  An assignment to any OTHER attribute of a non-`self` object is a
+                                          # write of that object (audit R3)
         for m in self.modules.values():
             for c in m.classes.values():
                 for name in c.methods:
                     self.method_index.setdefault(name, []).append(c)
+                self.instance_attrs |= set(c.getters) | set(c.setters) | c.data_names
+                for fn in list(c.methods.values()) + list(c.getters.values()) + list(c.setters.values()):
+                    a = fn.args.posonlyargs + fn.args.args
+                    if not a:
+                        continue
+                    for n in ast.walk(fn):
+                        if isinstance(n, ast.Attribute) and isinstance(n.ctx, ast.Store) and isinstance(n.value, ast.Name) \
+                                and n.value.id == a[0].arg:
+                            self.instance_attrs.add(n.attr)
+
+    def package_inits(self, module):
+        """the `__init__` modules of the packages `module` lives in (outermost first)"""
+        parts = module.name.split(".")[:-1]
+        names = ["__init__"] + [".".join(parts[:k]) + ".__init__" for k in range(1, len(parts) + 1)]
+        return [self.modules[n] for n in names if n in self.modules and self.modules[n] is not module]
 
     def find_module(self, dotted):
         """persim.landscapes.exact -> ModuleInfo"""
+        if dotted == "persim":
+            return self.modules.get("__init__")
         if dotted.startswith("persim."):
             dotted = dotted[len("persim."):]
-        return self.modules.get(dotted)
+        return self.modules.get(dotted) or self.modules.get(dotted + ".__init__")
 
     def find_class(self, name, module=None):
         if module is not None:
@@ -198,8 +355,10 @@ class Project:
                 if sub:
                     return ("module", sub)
                 m = self.find_module(mod)
-                if m and depth < 5:
-                    return self.resolve_name(m, attr, depth + 1)
+                if m and m is not module and depth < 5:
+                    r = self.resolve_name(m, attr, depth + 1)
+                    if r:
+                        return r
                 if mod == "persim":       # re-exported through persim/__init__
                     for mm in self.modules.values():
                         if attr in mm.funcs or attr in mm.classes:
@@ -208,6 +367,12 @@ class Project:
             return ("ext", canon(mod + "." + attr))
         if name in module.data:
             return ("data", module, name)
+        for mod in module.star_imports:           # `from .tools import *`
+            m = self.find_module(mod) if (mod == "persim" or mod.startswith("persim.")) else None
+            if m and m is not module and depth < 5:
+                r = self.resolve_name(m, name, depth + 1)
+                if r:
+                    return r
         return None
 
     def entry_points(self):
@@ -268,6 +433,11 @@ class Program:
             self.origin[ins] = origin
             if op in (NEW, COPY, ELEM):
                 self.defs.setdefault(a, []).append((op, b))
+        elif op in (WRITE, STORE) and origin and origin != self.origin.get(ins):
+            # the same instruction from another statement: kept for the diagnostics and for the reviewed-writes pin
+            more = self.__dict__.setdefault("more_origins", {}).setdefault(ins, [])
+            if origin not in more:
+                more.append(origin)
         if op == COPY and b in self.fv:
             self.fv.setdefault(a, set()).update(self.fv[b])
 
@@ -330,6 +500,8 @@ class Program:
             op, a, b = ins
             if op in (WRITE, STORE) and sol["pts"][a] & 1:
                 out.append({"instr": "%s %d %d" % (OPNAMES[op], a, b), "origin": self.origin.get(ins, "")})
+                for o in getattr(self, "more_origins", {}).get(ins, []):
+                    out.append({"instr": "%s %d %d" % (OPNAMES[op], a, b), "origin": o})
         return out
 
     def well_formed(self, sol):
@@ -382,6 +554,10 @@ class Program:
             else:
                 n = ins
             new_instrs.append(n); new_origin[n] = self.origin.get(ins, "")
+            if ins in getattr(self, "more_origins", {}):
+                new_more = self.__dict__.setdefault("more_origins_renumbered", {})
+                new_more[n] = self.more_origins[ins]
+        self.more_origins = self.__dict__.pop("more_origins_renumbered", {})
         self.instrs, self.origin, self.seen = new_instrs, new_origin, set(new_instrs)
         self.params = [vmap[p] for p in self.params]
         self.site_desc = [self.site_desc[s] for s in sused]
@@ -429,8 +605,6 @@ def is_immutable_const(e):
         return True
     if isinstance(e, ast.Tuple):
         return all(is_immutable_const(x) for x in e.elts)
-    if isinstance(e, ast.Attribute):          # np.inf, np.float64 …
-        return True
     return False
 
 
@@ -442,6 +616,9 @@ class Translator:
         self.unknown_calls = set()
 
     def translate(self, ep):
+        for m in self.project.package_inits(ep.module):
+            if m.problems:
+                raise TranslatorError("%s: %s" % (m.path, "; ".join(m.problems[:3])))
         prog = Program(ep.name)
         fr = Frame(self, prog, ep.module, ep.node, (), cls=ep.cls, self_cls=ep.cls, parent=None)
         fr.bind_entry_params(ep)
@@ -466,6 +643,15 @@ class Frame:
         self.param_names = set(p.arg for p in a.posonlyargs + a.args + a.kwonlyargs) if a else set()
         self.ret = prog.var(("ret", ctx))
         self.fname = (cls.name + "." if cls else "") + getattr(func, "name", "<lambda>")
+        self.nested_defaults = {}  # id(nested def / lambda) -> {parameter name: variable of its default, evaluated at the definition}
+        # code the translator does not model around this function (audit R6): the function is not what its `def` says
+        for what in (module, cls, self_cls):
+            if what is not None and what.problems:
+                raise TranslatorError("%s: %s" % (getattr(what, "path", None) or "%s.%s" % (what.module.name, what.name),
+                                                  "; ".join(what.problems[:3])))
+        for owner in (module, cls):
+            if owner is not None and id(func) in owner.bad_decorators:
+                raise TranslatorError("decorator `%s` of %s is not modelled (%s)" % (owner.bad_decorators[id(func)][:60], self.fname, module.path))
 
     # --- small helpers
     def org(self, node):
@@ -571,11 +757,15 @@ class Frame:
             if self.lookup_local(e.id) is not None:
                 return None
             r = self.resolve_static(e.id)
-            return r if r else ("builtin", e.id)
+            if r:
+                return r
+            return ("builtin", e.id) if e.id in BUILTIN_NAMES else None   # an unresolved name is module-level state (ev_Name)
         if isinstance(e, ast.Attribute):
             b = self.dotted(e.value)
             if b is None:
                 return None
+            if b[0] == "builtin":                     # list.sort, dict.update, object.__setattr__ …
+                return ("builtin", b[1] + "." + e.attr)
             if b[0] == "ext":
                 return ("ext", canon(b[1] + "." + e.attr))
             if b[0] == "module":
@@ -598,7 +788,12 @@ class Frame:
             return t
         r = self.resolve_static(node.id)
         if r is None:
-            return self.fnval(node, ("ext", node.id))  # builtin (or undefined) name: no buffer; as a function value: the table
+            if node.id in BUILTIN_NAMES:
+                return self.fnval(node, ("ext", node.id))  # builtin name: no buffer; as a function value: the table
+            # bound by nothing the translator reads (a tuple / conditional / star-import binding at module level, `globals()`):
+            # module-level state
+            self.read_global("<unresolved name %s.%s>" % (self.module.name, node.id), node)
+            return self.defvar()
         return self.static_value(r, node)
 
     def static_value(self, r, node):
@@ -610,8 +805,10 @@ class Frame:
             return self.fnval(node, ("class", r[1].module.name, r[1].name))
         if r[0] == "data":
             qual = r[1].name + "." + r[2]
-            if r[2].startswith("_VERIF_") or r[2] == "__all__":
+            if r[2] == "__all__":
                 return self.const()
+            # (a `_VERIF_*` name is ordinary module-level state wherever it is evaluated: the reviewed hook statements, the only
+            # place where it is not, are skipped whole by `st_If`)
             if qual not in self.tr.constants or r[2] in r[1].global_decls:
                 self.emit(RGLOB, self.global_id(qual), 0, node)
                 self.prog.globals_read.add(qual)
@@ -712,6 +909,7 @@ class Frame:
         return self.fresh(e, "", "comparison")
 
     def ev_Lambda(self, e):
+        self.eval_defaults(e)
         return self.fnval(e, Callee(self.module, e, cls=self.cls, self_cls=self.self_cls, parent=self), "lambda")
 
     def ev_Starred(self, e):
@@ -860,18 +1058,47 @@ class Frame:
             self.emit(COPY, t, res, e)
         return t
 
+    NP_BOOL_FUNCS = ("np.isfinite", "np.isinf", "np.isnan", "np.logical_and", "np.logical_or", "np.logical_not", "np.any", "np.all")
+
     @staticmethod
-    def is_mask(ix):
-        if isinstance(ix, ast.Tuple):
-            return any(Frame.is_mask(x) for x in ix.elts)
-        if isinstance(ix, ast.Compare):
-            return True
-        if isinstance(ix, ast.UnaryOp) and isinstance(ix.op, ast.Invert):
-            return True
-        if isinstance(ix, ast.Call) and ast.unparse(ix.func) in ("np.isfinite", "np.isinf", "np.isnan", "np.logical_and",
-                                                                   "np.logical_or", "np.logical_not"):
-            return True
+    def is_nd_view(e):
+        """syntactically an ndarray: a subscript with a multi-dimensional index holding a slice (`S[:, 1]`; lists and dicts
+        raise on it), or arithmetic on one"""
+        if isinstance(e, ast.Subscript):
+            return isinstance(e.slice, ast.Tuple) and any(isinstance(x, ast.Slice) for x in e.slice.elts)
+        if isinstance(e, ast.BinOp):
+            return Frame.is_nd_view(e.left) or Frame.is_nd_view(e.right)
+        if isinstance(e, ast.UnaryOp) and isinstance(e.op, (ast.USub, ast.UAdd)):
+            return Frame.is_nd_view(e.operand)
         return False
+
+    def is_np_bool(self, ix):
+        """the expression's value is a NumPy boolean (array or `np.bool_` scalar), never a Python bool / int: used as an index
+        it selects a COPY of an ndarray and raises on a list.  (`x[flag == True]`, `x[~0]`, `x[k == 1]` are Python bools / ints:
+        element access, an alias — the audit's `is_mask` hole)"""
+        if isinstance(ix, ast.Compare):
+            return any(self.is_nd_view(x) for x in [ix.left] + ix.comparators)
+        if isinstance(ix, ast.UnaryOp) and isinstance(ix.op, ast.Invert):
+            return self.is_np_bool(ix.operand)
+        if isinstance(ix, ast.BinOp) and isinstance(ix.op, (ast.BitAnd, ast.BitOr, ast.BitXor)):
+            return self.is_np_bool(ix.left) or self.is_np_bool(ix.right)
+        if isinstance(ix, ast.Call):
+            d = self.dotted(ix.func)
+            return d is not None and d[0] == "ext" and d[1] in self.NP_BOOL_FUNCS
+        return False
+
+    def is_mask(self, ix):
+        if isinstance(ix, ast.Tuple):
+            return any(self.is_mask(x) for x in ix.elts)
+        return self.is_np_bool(ix)
+
+    def mask_names_container(self, e):
+        """`x[mask]`: the mask is computed from `x` itself (or the index is multi-dimensional), so `x` is not a dict keyed by
+        booleans — for which `d[np.True_]` is the element `d[True]`"""
+        if isinstance(e.slice, ast.Tuple):
+            return True
+        want = ast.dump(e.value)
+        return any(ast.dump(n) == want for n in ast.walk(e.slice) if isinstance(n, (ast.Name, ast.Attribute, ast.Subscript)))
 
     def ev_index(self, ix):
         if isinstance(ix, ast.Slice):
@@ -888,7 +1115,10 @@ class Frame:
         x = self.ev(e.value)
         self.ev_index(e.slice)
         if self.is_mask(e.slice):
-            return self.fresh(e, "", "boolean-mask index")
+            t = self.fresh(e, "", "boolean-mask index")
+            if not self.mask_names_container(e):
+                self.emit(ELEM, t, x, e)
+            return t
         return self.item(e, x)
 
     def ev_Slice(self, e):
@@ -950,7 +1180,10 @@ class Frame:
                 if not isinstance(d, Callee) and d[0] == "bound":
                     self.emit(COPY, R, d[1], node)    # a bound method may be called: its receiver is within reach
                     continue
-                if k in busy:
+                # a function value the unknown callee may call: applied to everything within reach.  While one is being applied,
+                # an unknown call inside it (which would be handed the same function value again, on its own havoc variable)
+                # does not apply it once more: the outer application has already written everything within reach
+                if k in busy or dkey(d) in {kk[1] for kk in busy}:
                     continue
                 busy.add(k)
                 try:
@@ -1083,6 +1316,9 @@ class Frame:
         return t
 
     def construct(self, node, cls, args, kwargs, kwstar):
+        for c in self.project.mro(cls):
+            if c.problems:
+                raise TranslatorError("%s.%s: %s" % (c.module.name, c.name, "; ".join(c.problems[:3])))
         obj = self.fresh(node, "obj", "instance of %s" % cls.name)
         m = self.project.lookup_method(cls, "__init__")
         if m:
@@ -1090,6 +1326,16 @@ class Frame:
         else:
             for v in self.all_arg_vars(node, args, kwargs, kwstar):
                 self.emit(SETATTR, obj, v, node)
+        # the special methods of a PUBLIC class are entry points with their own obligations; those of a private class are run
+        # implicitly (`with _C(a):`, `_C(a) + 1`, `len(_C(a))`, `for x in _C(a)`, `_C(a)[0]`, `repr(_C(a))` …) and nothing
+        # else looks at them: an instance of such a class is an unknown call on what it was built from
+        implicit = sorted({n for c in self.project.mro(cls) if c.name.startswith("_") for n in c.methods
+                           if self.is_dunder(n) and n != "__init__"})
+        if implicit:
+            R = self.unknown_call(node, self.all_arg_vars(node, args, kwargs, kwstar), "implicit special methods %s of the private class %s"
+                                  % (" ".join(implicit), cls.name), recv=obj)
+            self.emit(COPY, R, obj, node)
+            return R
         return obj
 
     def method_call(self, node, f, args, kwargs, kwstar):
@@ -1104,10 +1350,30 @@ class Frame:
             if m:
                 return self.inline(Callee(m[0].module, m[1], cls=m[0], bound_self=r, self_cls=self_cls),
                                    args, kwargs, kwstar, node, static=name in m[0].static)
-        argv = self.all_arg_vars(node, args, kwargs, kwstar)
         results = []
+        # the receiver is a CLASS / MODULE object (`type(x).reverse(x)`, `x.__class__.sort(x)`, `L = list; L.sort(x)`,
+        # `m = np; m.fill_diagonal(a, 0)`): the call is the function `Class.name`, which works on its first argument (audit R4)
+        owners = [d for d in sorted(self.prog.fv.get(r, ()), key=dkey) if not isinstance(d, Callee) and d[0] in ("classof", "class", "ext")]
+        for d in owners:
+            pc = self.project.modules[d[1]].classes[d[2]] if d[0] in ("classof", "class") and d[1] is not None else None
+            m = self.project.lookup_method(pc, name) if pc is not None else None
+            if d[0] == "ext":
+                results.append(self.apply_table(node, d[1] + "." + name, args, kwargs, kwstar, direct=False))
+            elif m:
+                results.append(self.inline(Callee(m[0].module, m[1], cls=m[0], self_cls=pc), args, kwargs, kwstar, node,
+                                           unbound=name not in m[0].static))
+            elif args and args[0][0] == "pos":
+                results.append(self.bound_call(node, args[0][1], name, None, args[1:], kwargs, kwstar))
+            else:
+                results.append(self.unknown_call(node, self.all_arg_vars(node, args, kwargs, kwstar), "%s of a class object" % name, recv=r))
+        if owners and self.prog.fn_complete(r):
+            t = self.tmp(node, "clsres")
+            for v in results:
+                self.emit(COPY, t, v, node)
+            return t
+        argv = self.all_arg_vars(node, args, kwargs, kwstar)
         handled = False
-        in_tables = name in T.MUTATOR_METHODS or name in T.FRESH_METHODS or name in T.VIEW_METHODS
+        in_tables = name in T.MUTATOR_METHODS or name in T.FRESH_METHODS or name in T.VIEW_METHODS or name in T.ALIAS_OR_FRESH_METHODS
         if is_self and not in_tables and name in T.CALLER_CALLABLES:
             # an instance attribute documented as a caller-supplied callable (self.weight, self.kernel): assumed read-only
             self.elem(node, r, "fnattr")
@@ -1129,6 +1395,8 @@ class Frame:
                 results.append(self.item(node, r, "pop"))
             if name == "sort":
                 self.apply_key(node, kwargs, [self.item(node, r, "sortit")])
+        elif name in T.FRESH_METHODS and self.function_valued(argv):
+            return self.unknown_call(node, argv, ".%s with a function-valued argument" % name, recv=r)
         elif name in T.FRESH_METHODS:
             handled = True
             t = self.fresh(node, "m", "result of .%s()" % name)
@@ -1143,12 +1411,12 @@ class Frame:
                 for o in posv[T.METHOD_OUT_POS[name]:] if not star else argv:
                     self.write_out(node, o, t)
             results.append(t)
-        elif name in T.VIEW_METHODS:
+        elif name in T.VIEW_METHODS or name in T.ALIAS_OR_FRESH_METHODS:
             handled = True
             t = self.tmp(node, "view")
             self.emit(COPY, t, r, node)
-            if name.startswith("to"):
-                self.emit(COPY, t, self.fresh(node, "conv", "sparse conversion"), node)
+            if name in T.ALIAS_OR_FRESH_METHODS:      # the receiver itself, a new object on the receiver's buffers, or fresh
+                self.emit(COPY, t, self.fresh(node, "conv", "sparse conversion" if name.startswith("to") else "result of .%s()" % name), node)
             results.append(t)
         elif name in T.ELEM_METHODS:
             handled = True
@@ -1182,6 +1450,13 @@ class Frame:
             self.emit(COPY, t, v, node)
         return t
 
+    def function_valued(self, argv):
+        """some argument holds a persim function / lambda / bound method: a library routine given it may call it on anything
+        it can reach (`pairwise_distances(a, metric=f)`, `bisect_left(a, x, key=f)`)"""
+        return any(isinstance(d, Callee) or d[0] == "vectorized"
+                   or (d[0] == "bound" and (d[2] in T.MUTATOR_METHODS or d[2] in self.project.method_index or d[2] == "<unknown attribute>"))
+                   for v in argv for d in self.prog.fv.get(v, ()))
+
     def write_out(self, node, o, res):
         """`o` is an `out` argument: it (or, for `out=(a,)`, its element) is written and is what the call returns"""
         for w in (o, self.item(node, o, "out%d" % o)):
@@ -1212,12 +1487,28 @@ class Frame:
             if writes:
                 self.write_global(name, node)
             return self.fresh(node, "st", "result of %s" % d)
+        owner, _, meth = d.rpartition(".")
+        if owner in T.METHOD_OWNER_TYPES and d not in T.MUTATING_FUNCS and d not in T.FRESH_FUNCS:
+            # a method called through its type: `list.sort(x)` is `x.sort()` (audit R4)
+            if args and args[0][0] == "pos":
+                return self.bound_call(node, args[0][1], meth, None, args[1:], kwargs, kwstar)
+            return self.unknown_call(node, argv, d)
         if d.startswith("np.random.") or d.startswith("random."):
             self.emit(RNG, 0, 0, node)
             self.prog.uses_rng = True
-            if d in T.MUTATING_FUNCS and posv:
-                self.emit(WRITE, posv[0], 0, node)
+            if d in T.MUTATING_FUNCS:                  # shuffle(x) / shuffle(x=x)
+                i = T.MUTATING_FUNCS[d]
+                for w in ([posv[i]] if i < len(posv) and not star else argv):
+                    self.emit(WRITE, w, 0, node)
             t = self.fresh(node, "rng", "random draw")
+            if d.startswith("random."):               # random.choice / sample / choices return the very elements of the population
+                res = self.tmp(node, "rngsel")
+                self.emit(COPY, res, t, node)
+                for v in argv:
+                    it = self.item(node, v, "rs%d" % v)
+                    self.emit(COPY, res, it, node)
+                    self.emit(STORE, t, it, node)
+                t = res
             if "out" in kwargs:
                 self.write_out(node, kwargs["out"], t)
             return t
@@ -1238,13 +1529,15 @@ class Frame:
             return self.const()
         if d == "np.array" and (self.kw_state(node, kwargs, "copy", direct) not in ("absent", True) or star):
             d = "np.asarray"                           # copy=False / None / not a literal: may be the very object
-        if d in T.VIEW_FUNCS:
+        if d in T.VIEW_FUNCS or d in T.ALIAS_OR_FRESH_FUNCS:
             t = self.tmp(node, "view")
             if posv and not star:
                 self.emit(COPY, t, posv[0], node)
             else:
                 for v in argv:
                     self.emit(COPY, t, v, node)
+            if d in T.ALIAS_OR_FRESH_FUNCS:            # np.float64(a) is a / np.float64(1.5) is new
+                self.emit(COPY, t, self.fresh(node, "f", "result of %s" % d), node)
             if "out" in kwargs:
                 self.write_out(node, kwargs["out"], t)
             return t
@@ -1302,6 +1595,20 @@ class Frame:
             return t
         if d == "type" and len(posv) == 1 and not star:
             return self.fnval(node, ("classof", None, None), "classof")
+        if d in T.SUM_FUNCS:
+            # sum(xs) / sum(xs, start): arithmetic (fresh) or concatenation — then the result holds the elements of the elements
+            # of `xs` and the elements of `start`
+            t = self.fresh(node, "f", "result of %s" % d)
+            for v in argv:
+                it = self.item(node, v, "ci%d" % v)
+                self.emit(STORE, t, it, node)
+                self.emit(STORE, t, self.item(node, it, "cii%d" % v), node)
+            return t
+        if d == "print" and ("file" in kwargs or kwstar):
+            return self.unknown_call(node, argv, "print(file=…)")
+        if "." in d and (d in T.FRESH_FUNCS or d in T.READONLY_FUNCS) and self.function_valued(argv):      # (builtins such as
+            # callable / isinstance / str / len look at a function, they do not call it)
+            return self.unknown_call(node, argv, d + " with a function-valued argument")
         if d in T.FRESH_FUNCS or d in T.READONLY_FUNCS or d.split(".")[-1].endswith(T.EXC_SUFFIXES):
             t = self.fresh(node, "f", "result of %s" % d)
             # `out` given by keyword or positionally: written, and returned
@@ -1322,11 +1629,15 @@ class Frame:
                 for v in (posv[:1] if posv and not star else argv):
                     self.emit(WRITE, v, 0, node)
                     self.emit(COPY, t, v, node)
-            # overwrite_input= / inplace= …: the inputs may be used as scratch space
-            for k in sorted(kwargs):
-                if k in T.INPLACE_KW and self.kw_state(node, kwargs, k, direct) is not False:
-                    for v in argv:
-                        self.emit(WRITE, v, 0, node)
+            # overwrite_input= / inplace= …, by keyword or positionally: the inputs may be used as scratch space
+            scratch = any(k in T.INPLACE_KW and self.kw_state(node, kwargs, k, direct) is not False for k in kwargs)
+            j = T.INPLACE_POS.get(d)
+            if j is not None and (len(posv) > j or star):
+                lit = node.args[j] if direct and not star and j < len(getattr(node, "args", [])) else None
+                scratch = scratch or not (isinstance(lit, ast.Constant) and lit.value is False)
+            if scratch:
+                for v in argv:
+                    self.emit(WRITE, v, 0, node)
             return t
         if d == "getattr" and posv:
             lit = node.args[1] if direct and not star and len(getattr(node, "args", [])) > 1 else None
@@ -1373,8 +1684,22 @@ class Frame:
         self.param_bind[name] = var
         return var
 
-    def default_value(self, expr):
-        if expr is None or is_immutable_const(expr) or (isinstance(expr, ast.Name) and expr.id in ("None", "True", "False")):
+    def default_value(self, expr, name=None):
+        """the value a parameter takes when the call gives none.  Nested defs / lambdas: what the default expression was when
+        the function was defined (`def g(col=a.T)`).  Module-level functions and methods: a constant, a function value
+        (`kernel=gaussian`, `f=np.ndarray.sort`), else a module-level object shared by all calls (caller-visible)"""
+        if self.parent is not None and name in self.parent.nested_defaults.get(id(self.func), {}):
+            return self.parent.nested_defaults[id(self.func)][name]
+        if expr is None or (isinstance(expr, ast.Name) and expr.id in ("None", "True", "False")):
+            return self.const()
+        if isinstance(expr, (ast.Name, ast.Attribute)):
+            d = self.dotted(expr)
+            if d is not None and d[0] in ("func", "class", "ext", "builtin"):
+                if d[0] in ("ext", "builtin") and d[1] in T.STATE_READS:
+                    return self.defvar()
+                return self.static_value(d, expr)
+            return self.defvar()
+        if is_immutable_const(expr):
             return self.const()
         return self.defvar()          # mutable default: a module-level object shared by all calls
 
@@ -1394,6 +1719,14 @@ class Frame:
             self.state[n] = (v,)
             self.param_bind[n] = v
         self.defvar()
+        # a parameter whose default is a function (`kernel=gaussian`, `f=np.ndarray.sort`) may hold it
+        pos_names = [p.arg for p in a.posonlyargs + a.args]
+        for n, e in list(zip(pos_names[len(pos_names) - len(a.defaults):], a.defaults)) + \
+                [(p.arg, e) for p, e in zip(a.kwonlyargs, a.kw_defaults) if e is not None]:
+            if n in self.param_bind and isinstance(e, (ast.Name, ast.Attribute, ast.Lambda)):
+                dv = self.ev(e) if isinstance(e, ast.Lambda) else self.default_value(e, n)
+                if self.prog.fv.get(dv):
+                    self.prog.fv.setdefault(self.param_bind[n], set()).update(self.prog.fv[dv])
 
     def bind_params(self, callee, args, kwargs, kwstar, node, caller, unbound=False, static=False):
         fn = callee.node
@@ -1428,7 +1761,7 @@ class Frame:
                 srcs.append(kwargs[n]); used_kw.add(n)
             else:
                 if has_default[i] or messy or True:
-                    srcs.append(self.default_value(defaults[i]) if has_default[i] else self.const())
+                    srcs.append(self.default_value(defaults[i], n) if has_default[i] else self.const())
             if messy:
                 srcs += posv + starv + kwv
             if len(srcs) == 1:
@@ -1442,10 +1775,10 @@ class Frame:
             if p.arg in kwargs:
                 self.bind(p.arg, kwargs[p.arg], node); used_kw.add(p.arg)
             elif not kwv:
-                self.bind(p.arg, self.default_value(dflt), node)
+                self.bind(p.arg, self.default_value(dflt, p.arg), node)
             else:
                 t = self.prog.var(("arg", self.ctx, p.arg))
-                self.emit(COPY, t, self.default_value(dflt), node)
+                self.emit(COPY, t, self.default_value(dflt, p.arg), node)
                 for s in kwv:
                     self.emit(COPY, t, s, node)
                 self.bind(p.arg, t, node)
@@ -1524,7 +1857,24 @@ class Frame:
         for a in st.names:
             self.local_imports[a.asname or a.name] = (st.module or "") + "." + a.name
 
+    def eval_defaults(self, fn):
+        """default values of a nested def / lambda are evaluated where (and when) it is defined"""
+        a = fn.args
+        pos_names = [p.arg for p in a.posonlyargs + a.args]
+        out = {}
+        for n, e in list(zip(pos_names[len(pos_names) - len(a.defaults):], a.defaults)) + \
+                [(p.arg, e) for p, e in zip(a.kwonlyargs, a.kw_defaults) if e is not None]:
+            out[n] = self.ev(e)
+        self.nested_defaults[id(fn)] = out
+
     def st_FunctionDef(self, st):
+        if st.decorator_list:
+            raise TranslatorError("decorator `%s` of the nested function %s is not modelled (%s)"
+                                  % (ast.unparse(st.decorator_list[0])[:60], st.name, self.org(st)))
+        for what, e in def_time_exprs(st):
+            if what == "annotation" and runs_code(e):
+                raise TranslatorError("annotation `%s` of the nested function %s runs code (%s)" % (ast.unparse(e)[:60], st.name, self.org(st)))
+        self.eval_defaults(st)
         self.define(st.name, self.fnval(st, Callee(self.module, st, cls=None, self_cls=self.self_cls, parent=self), "def"), st)
 
     def st_Assign(self, st):
@@ -1560,9 +1910,11 @@ class Frame:
         elif isinstance(t, ast.Attribute):
             x = self.ev(t.value)
             self.touch_state(t.value, x, node)
-            if t.attr in T.ARRAY_META_ATTRS:
+            if t.attr in T.ARRAY_META_ATTRS:          # x.flat = v, x.real = v, x.shape = s …: the array is rewritten in place
                 self.emit(WRITE, x, 0, node)
+                self.emit(STORE, x, val, node)
                 return
+            self.attr_write(t, x, node)
             self.emit(SETATTR, x, val, node)
             if self.is_self(t.value) and self.self_cls is not None:
                 s = self.project.lookup_prop(self.self_cls, t.attr, "set")
@@ -1575,6 +1927,15 @@ class Frame:
                             [("pos", val)], {}, [], node)
         else:
             raise TranslatorError("unsupported assignment target %s at %s" % (type(t).__name__, self.org(node)))
+
+    def attr_write(self, t, x, node):
+        """`y.attr = v` / `y.attr op= v` where `y` need not be a persim instance: only the attribute tables of persim instances
+        are outside "arrays or lists".  `y.flags.writeable = b` writes `y`; an attribute no persim class defines, on anything
+        but `self`, is a write of `y` (an ndarray / sparse-matrix / library-object attribute)"""
+        if isinstance(t.value, ast.Attribute) and t.value.attr in T.ARRAY_META_OWNERS:
+            self.emit(WRITE, self.ev(t.value.value), 0, node)
+        if not self.is_self(t.value) and t.attr not in self.project.instance_attrs:
+            self.emit(WRITE, x, 0, node)
 
     def touch_state(self, e, x, node):
         """a store / attribute assignment / deletion through `e`: if `e` is a module, class, function or library object, that
@@ -1615,6 +1976,9 @@ class Frame:
         elif isinstance(t, ast.Attribute):
             x = self.ev(t.value)
             self.touch_state(t.value, x, st)
+            if t.attr in T.ARRAY_META_ATTRS:          # x.real += 1
+                self.emit(WRITE, x, 0, st)
+            self.attr_write(t, x, st)
             tv = self.elem(st, x, "aug")
             self.emit(WRITE, tv, 0, st)
             self.emit(SETATTR, x, tv, st)
@@ -1632,13 +1996,19 @@ class Frame:
             elif isinstance(t, ast.Attribute):
                 self.touch_state(t.value, self.ev(t.value), st)
 
-    @staticmethod
-    def is_hook_test(test):
-        names = [n.id for n in ast.walk(test) if isinstance(n, ast.Name)]
-        return bool(names) and all(n.startswith("_VERIF_") for n in names)
+    def is_hook_stmt(self, st):
+        """the statement is, WORD FOR WORD, one of the reviewed verification hooks of policy.json `verif_hooks` (guarded by a
+        `_VERIF_*` name of this module whose module-level binding is the reviewed one too).  Anything else under such a test —
+        another body, an `else` branch, a negated test — is translated (audit R5)"""
+        names = {n.id for n in ast.walk(st.test) if isinstance(n, ast.Name)}
+        if not names or not all(n in self.module.hooks and self.lookup_local(n) is None and n not in self.global_names
+                                and n not in self.module.global_decls for n in names):
+            return False
+        text = ast.unparse(st)
+        return all(text in self.module.hooks[n] for n in names)
 
     def st_If(self, st):
-        if self.is_hook_test(st.test):
+        if self.is_hook_stmt(st):
             return                                    # verification hook (PERSIM_VERIF=1 only): outside the model
         self.ev(st.test)
         s0 = dict(self.state)
@@ -1674,11 +2044,24 @@ class Frame:
         self.loop(st, head)
 
     def st_With(self, st):
+        exits = []
         for it in st.items:
             v = self.ev(it.context_expr)
+            # `with cm as x`: x is what `cm.__enter__()` returns — for the persim classes that define it, their method
+            for c in self.project.method_index.get("__enter__", []):
+                r = self.inline(Callee(c.module, c.methods["__enter__"], cls=c, bound_self=v, self_cls=c), [], {}, [], it.context_expr)
+                j = self.tmp(it.context_expr, "enter%s" % c.name)
+                self.emit(COPY, j, v, st)
+                self.emit(COPY, j, r, st)
+                v = j
+            exits.append(v)
             if it.optional_vars is not None:
                 self.assign_target(it.optional_vars, v, st)
         self.block(st.body)
+        for v in exits:
+            for c in self.project.method_index.get("__exit__", []):
+                k = self.const()
+                self.inline(Callee(c.module, c.methods["__exit__"], cls=c, bound_self=v, self_cls=c), [("pos", k)] * 3, {}, [], st)
 
     def st_Try(self, st):
         s0 = dict(self.state)
@@ -1821,6 +2204,13 @@ def load_policy():
         pol = json.load(f)
     with open(os.path.join(HERE, "dynamic_only.json")) as f:
         pol["dynamic_only"] = json.load(f)
+    # the obligations the UNCHANGED tree generates (committed; `py2ir.py --write-expected` rewrites it after a reviewed change
+    # of /repo or of the policy): a name of this list that a tree no longer generates is a broken obligation, not a smaller count
+    try:
+        with open(os.path.join(HERE, "expected_obligations.json")) as f:
+            pol["expected_obligations"] = json.load(f)["obligations"]
+    except OSError:
+        pol["expected_obligations"] = []
     return pol
 
 
@@ -1854,6 +2244,17 @@ class Result:
         # read or written, no RNG, and no attribute table of a caller-owned object updated (methods with lazy caches are not)
         self.repeatable = (self.kind == "obligation" and self.safe and self.classification == "pure" and not allowed and not self.allow_rng
                            and not any(op == SETATTR and sol["pts"][a] & 1 for op, a, b in prog.instrs))
+        # `repeat_<entry>` is in the committed list of expected obligations: it is emitted whether or not it still holds
+        # (process item of audit 3: an entry point that stops being repeatable must fail, not lose its theorem)
+        self.repeat_expected = self.kind == "obligation" and ("repeat_" + self.ident) in set(policy.get("expected_obligations", []))
+
+    def obligation_names(self):
+        i = self.ident
+        if self.kind == "obligation":
+            return ["safe_" + i, "glob_" + i, "wf_" + i] + (["repeat_" + i] if self.repeatable or self.repeat_expected else [])
+        if self.kind == "inplace_by_contract":
+            return ["unsafe_" + i]
+        return []
 
     def lean(self):
         i, prog, sol = self.ident, self.prog, self.sol
@@ -1877,8 +2278,9 @@ class Result:
                        % (i, i, ", ".join(map(str, self.allowed_globals)), ", ".join(map(str, self.allowed_globals)),
                           "true" if self.allow_rng else "false"))
             out.append("theorem wf_%s : wellFormed ir_%s sol_%s = true := by decide +kernel" % (i, i, i))
-            if self.repeatable:
+            if self.repeatable or self.repeat_expected:
                 # no module-level state, no RNG, no attribute update of a caller-owned object: `second_call_same_result` applies
+                # (an entry point of the committed list that is no longer repeatable keeps the theorem, which then fails)
                 out.append("private theorem attrs_%s : (ir_%s).instrs.all (attrsOk sol_%s) = true := by decide +kernel" % (i, i, i))
                 out.append("theorem repeat_%s : pureCall ir_%s sol_%s = true ∧ globalsWithin ir_%s [] [] false = true :=\n"
                            "  ⟨pureCall_of_safe _ _ safe_%s attrs_%s, glob_%s⟩" % (i, i, i, i, i, i, i))
@@ -1894,13 +2296,13 @@ class Result:
 
 def translate_all(root, policy=None):
     policy = policy or load_policy()
-    project = Project(root)
+    project = Project(root, policy=policy)
     tr = Translator(project, policy)
     results = []
     for ep in project.entry_points():
         try:
             prog = tr.translate(ep)
-        except TranslatorError as e:
+        except (TranslatorError, RecursionError) as e:
             # a construct the translator does not model: the entry point gets a deliberately failing obligation
             # (conservative), and the sweep concentrates on it
             prog = Program(ep.name)
@@ -1912,6 +2314,38 @@ def translate_all(root, policy=None):
             tr.unknown_calls.add("untranslatable entry point %s" % ep.name)
         results.append(Result(ep, prog, prog.solve(), policy))
     return project, tr, results
+
+
+def translation_problems(project, results, policy):
+    """what no per-entry obligation can show: obligations of the committed list that this tree no longer generates (an entry
+    point removed, renamed, made private, moved behind a wrapper), and modules with module-level code the translator does not
+    model that have no entry point of their own to fail.  Emitted as `translationProblems`, with the obligation
+    `expected_obligations_present : translationProblems = []`"""
+    have = {n for r in results for n in r.obligation_names()}
+    out = ["missing obligation %s" % n for n in policy.get("expected_obligations", []) if n not in have]
+    # entry points WITHOUT a safety obligation (dynamic only / in place by contract): the writes the analysis flags must be the
+    # reviewed ones of policy.json `reviewed_unsafe_writes`, and they must not touch module-level state
+    for r in results:
+        if r.kind == "obligation":
+            continue
+        reviewed = set(policy.get("reviewed_unsafe_writes", {}).get(r.name, []))
+        if r.untranslatable:
+            out.append("%s (%s): %s" % (r.name, r.kind, r.unsafe[0]["origin"][:120] if r.unsafe else "untranslatable"))
+            continue
+        for u in r.unsafe:
+            text = re.sub(r" \(inlined, depth \d+\)$", "", u["origin"].split(": ", 1)[-1])
+            if text not in reviewed:
+                out.append("%s (%s): write not in policy.json reviewed_unsafe_writes: %s" % (r.name, r.kind, text[:90]))
+        if not r.globals_ok or not r.wf:
+            out.append("%s (%s): module-level state / RNG / ill-formed: %s" % (r.name, r.kind, r.classification))
+    out = sorted(set(out), key=out.index)
+    with_entry = {r.ep.module.name for r in results}
+    for name in sorted(project.modules):
+        m = project.modules[name]
+        probs = list(m.problems) + ["class %s: %s" % (c.name, p) for c in m.classes.values() for p in c.problems]
+        if probs and (name not in with_entry or name.split(".")[-1] == "__init__"):
+            out.append("module %s: %s" % (name, probs[0]))
+    return out
 
 
 HEADER = """/-
@@ -1956,7 +2390,13 @@ def generate(root, lean_dir, policy=None):
                   sum(r.kind == "dynamic_only" for r in results)))
     top.append("def entryPoints : List (String × String) := [")
     top.append(",\n".join('  ("%s", "%s")' % (r.name, r.kind) for r in results))
-    top.append("]\n\nend PersimVerif.Generated")
+    top.append("]\n")
+    problems = translation_problems(project, results, policy or load_policy())
+    top.append("/-- obligations of the committed list harness/translator/expected_obligations.json that this tree does not generate, and "
+               "modules whose module-level code the translator does not model: must be empty -/")
+    top.append("def translationProblems : List String := [%s]" % ", ".join('"%s"' % p.replace("\\", "/").replace('"', "'") for p in problems))
+    top.append("theorem expected_obligations_present : translationProblems = [] := by decide")
+    top.append("\nend PersimVerif.Generated")
     write_if_changed(os.path.join(gdir, "ApiIR.lean"), "\n".join(top) + "\n")
     return project, tr, results
 
@@ -1978,6 +2418,16 @@ if __name__ == "__main__":
     warnings.filterwarnings("ignore", category=SyntaxWarning)
     root = sys.argv[1] if len(sys.argv) > 1 else os.environ.get("PERSIM_ROOT", "/repo")
     lean_dir = sys.argv[2] if len(sys.argv) > 2 else os.path.join(os.path.dirname(os.path.dirname(HERE)), "lean")
+    if "--write-expected" in sys.argv:
+        pol = load_policy()
+        pol["expected_obligations"] = []
+        _, _, results = translate_all("/repo", pol)
+        with open(os.path.join(HERE, "expected_obligations.json"), "w") as f:
+            json.dump({"_doc": "the obligations py2ir generates from the unchanged /repo (written by `py2ir.py --write-expected`, "
+                               "committed, read on every run): a name a tree no longer generates is reported by the obligation "
+                               "`expected_obligations_present` of Generated/ApiIR.lean",
+                       "obligations": sorted(n for r in results for n in r.obligation_names())}, f, indent=1)
+        sys.exit(0)
     _, tr, results = generate(root, lean_dir)
     for r in results:
         print("%-72s %-20s instrs=%4d %s %s" % (r.name, r.kind, len(r.prog.instrs), "safe" if r.safe else "UNSAFE", r.classification))
@@ -1987,15 +2437,29 @@ if __name__ == "__main__":
 # ------------------------------------------------------------------------------------------------ snippets (translator self-test)
 
 def translate_snippet(src, entry, policy=None):
-    """translate one function / method (`f` or `C.m`) of a stand-alone module given as text"""
-    project = Project(sources={"snippet": src})
+    """translate one function / method (`f` or `C.m`) of a stand-alone module given as text — or, for `src` a dict
+    {module name: text} (a package: `__init__` is its `__init__.py`), the entry point `module.f` / `module.C.m`.
+    Raises TranslatorError where the translator refuses the source."""
+    sources = src if isinstance(src, dict) else {"snippet": src}
+    project = Project(sources=sources, policy=policy)
     tr = Translator(project, policy or {"constants": []})
     for ep in project.entry_points():
-        if ep.qualname == entry:
-            prog = tr.translate(ep)
+        if (ep.name if isinstance(src, dict) else ep.qualname) == entry:
+            try:
+                prog = tr.translate(ep)
+            except RecursionError:
+                raise TranslatorError("recursion limit reached while translating %s" % entry)
             return Result(ep, prog, prog.solve(), policy or {})
-    raise TranslatorError("snippet has no entry point %s" % entry)
+    problems = [p for m in project.modules.values() for p in m.problems]
+    raise TranslatorError("snippet has no entry point %s%s" % (entry, ": " + "; ".join(problems[:2]) if problems else ""))
 
+
+# the reviewed hook of the hook snippets (audit R5): policy.json `verif_hooks` in small
+HOOK_POLICY = {"constants": [], "verif_hooks": {"snippet": {"_VERIF_T": {
+    "binding": "_VERIF_T = None", "statements": ["if _VERIF_T is not None:\n    _VERIF_T.append(len(a))"]}}},
+    "decorators_reviewed": {"snippet.C": ["reviewed(version='1')"]}}
+HOOK = "_VERIF_T = None\ndef f(a):\n"
+NPI = "import numpy as np\n"
 
 SNIPPETS = [
     # (verdict expected from the checker, entry, source)
@@ -2108,4 +2572,144 @@ SNIPPETS = [
     ("bad", "f", "import matplotlib as mpl\ndef f(a):\n    mpl.rcParams['lines.linewidth'] = 2\n"),
     ("good", "C.m", "class C:\n    def m(self, a):\n        return '%s(%d)' % (self.__class__.__name__, len(a)), type(a).__name__\n"),
     ("good", "f", "import warnings\nimport numpy as np\ndef f(a):\n    if len(a) == 0:\n        warnings.warn('empty')\n    return np.inf, np.float64(1), float\n"),
+    # ================= audit 3 (a snippet may carry a 4th component: the policy it is translated under; verdict "refused": the
+    # translator must raise TranslatorError, which gives the entry point a failing obligation)
+    # --- R1: functions that may return their argument itself (found by the dynamic table probe of c19.table_check)
+    ("bad", "f", NPI + "def f(a):\n    b = np.float64(a)\n    b[0] = 1\n"),
+    ("bad", "f", NPI + "def f(a):\n    b = np.int64(a)\n    b += 1\n    return b\n"),
+    ("bad", "f", NPI + "def f(a):\n    np.float32(a)[:, 1] += 1.0\n"),
+    ("bad", "f", NPI + "def f(a, n):\n    b = np.diff(a, n)\n    b[0] = 1\n"),
+    ("good", "f", NPI + "def f(a):\n    b = np.float64(a) + 1\n    b[0] = 1\n    return b, np.float64(1.5), np.float64(a).sum()\n"),
+    ("good", "f", NPI + "def f(a):\n    b = np.copy(np.float64(a))\n    b[0] = 1\n    return b\n"),
+    # --- R2: methods that may return their receiver or share its buffers
+    ("bad", "f", "def f(a):\n    b = a.conj()\n    b[0] = 1\n"),
+    ("bad", "f", "def f(a):\n    a.conjugate()[:, 1] -= 0.5\n"),
+    ("bad", "f", "def f(a):\n    b = a.conj().T\n    b += 1\n"),
+    ("bad", "f", "def f(a):\n    b = a.tocoo()\n    b.data[0] = 1\n"),
+    ("bad", "f", "def f(a):\n    b = a.tolil()\n    b[0, 0] = 1\n"),
+    ("good", "f", "def f(a):\n    b = a.conj().copy()\n    b[0] = 1\n    return b\n"),
+    ("good", "f", "def f(a):\n    b = a.tocoo().toarray()\n    b[0] = 1\n    return b\n"),
+    # --- R3: assignment to an attribute that rewrites the object
+    ("bad", "f", "def f(a):\n    a.flat = 0\n"),
+    ("bad", "f", "def f(a):\n    a.real = 0\n"),
+    ("bad", "f", NPI + "def f(a):\n    a.imag = 0.0\n    a.real = np.round(a, 3)\n"),
+    ("bad", "f", "def f(a):\n    a.shape = (-1,)\n"),
+    ("bad", "f", "def f(a):\n    a.flags.writeable = False\n"),
+    ("bad", "f", "def f(a):\n    a.real += 1\n"),
+    ("bad", "f", "def f(a):\n    a.T[0] = 1\n"),
+    ("bad", "f", "def f(a):\n    a.flat[0] = 1\n"),
+    ("bad", "f", "def f(a):\n    a.indices = a.indptr\n"),
+    ("bad", "f", "def f(a):\n    b = a.T\n    b.flat = 0\n"),
+    ("good", "f", NPI + "def f(a):\n    b = np.copy(a)\n    b.flat = 0\n    b.shape = (-1,)\n    b.real += 1\n    return b\n"),
+    ("good", "C.m", "class C:\n    def __init__(self):\n        self.cache = None\n    def m(self, a):\n        self.cache = a.sum()\n        return self.cache\n"),
+    ("good", "C.m", "class C:\n    def __init__(self):\n        self.cache = None\n    def m(self, other):\n        other.cache = 1\n        return other\n"),
+    # --- R4: methods called through the type / a class object, mutators of operator / functools / numpy
+    ("bad", "f", "def f(a):\n    list.sort(a)\n"),
+    ("bad", "f", "def f(a):\n    list.reverse(a)\n"),
+    ("bad", "f", "def f(a):\n    list.sort(a, key=len)\n"),
+    ("bad", "f", "def f(a):\n    type(a).reverse(a)\n"),
+    ("bad", "f", "def f(a):\n    a.__class__.sort(a)\n"),
+    ("bad", "f", "def f(a):\n    dict.update(a, clipped=True)\n"),
+    ("bad", "f", "def f(a):\n    dict.pop(a, 'k')\n"),
+    ("bad", "f", "def f(a):\n    list(map(list.sort, [a]))\n"),
+    ("bad", "f", "def f(a):\n    L = list\n    L.sort(a)\n"),
+    ("bad", "f", NPI + "def f(a):\n    m = np\n    m.fill_diagonal(a, 0)\n"),
+    ("bad", "f", "import operator\ndef f(a):\n    operator.setitem(a, 0, 1)\n"),
+    ("bad", "f", "import operator\ndef f(a, b):\n    return operator.iadd(a, b)\n"),
+    ("bad", "f", "import functools\ndef f(a):\n    return functools.reduce(list.__iadd__, [a, a])\n"),
+    ("bad", "f", "import functools\ndef f(a):\n    return functools.reduce(lambda x, y: x.__iadd__(y), [a, a])\n"),
+    ("bad", "f", NPI + "def f(a):\n    np.copyto(a, 0)\n"),
+    ("bad", "f", NPI + "def f(a):\n    np.put(a, [0], 1)\n"),
+    ("bad", "f", NPI + "def f(a):\n    np.put_along_axis(a, np.array([[0]]), 0.0, 0)\n"),
+    ("bad", "f", NPI + "def f(a):\n    np.ndarray.fill(a, 0)\n"),
+    ("bad", "f", NPI + "def f(a):\n    np.ndarray.resize(a, (1,))\n"),
+    ("bad", "f", NPI + "def f(a):\n    np.ndarray.sort(a)\n"),
+    ("bad", "f", NPI + "def f(a):\n    np.ndarray.itemset(a, 0, 1)\n"),
+    ("bad", "f", "def f(a):\n    object.__setattr__(a, 'shape', (1,))\n"),
+    ("bad", "f", "def f(a):\n    dgs = list.copy(a)\n    dgs[0][:, 1] -= dgs[0][:, 0]\n"),
+    ("good", "f", NPI + "def f(a):\n    b = list(a)\n    list.sort(b)\n    c = np.copy(a)\n    np.ndarray.fill(c, 0)\n    type(c).sort(c)\n    return b, c\n"),
+    ("good", "f", "def f(a):\n    return str.join(', ', [str(x) for x in a]), dict.get({}, 'k'), list.index(a, a[0])\n"),
+    # --- R5: only the reviewed hook statement, word for word, is left out
+    ("good", "f", HOOK + "    if _VERIF_T is not None:\n        _VERIF_T.append(len(a))\n    return a + 1\n", HOOK_POLICY),
+    ("bad", "f", HOOK + "    if _VERIF_T is not None:\n        _VERIF_T.append(len(a))\n    return a + 1\n"),
+    ("bad", "f", HOOK + "    if _VERIF_T is None:\n        a.sort()\n    return a + 1\n", HOOK_POLICY),
+    ("bad", "f", HOOK + "    if _VERIF_T is not None:\n        a.sort()\n    return a + 1\n", HOOK_POLICY),
+    ("bad", "f", HOOK + "    if _VERIF_T is not None:\n        _VERIF_T.append(len(a))\n    else:\n        a.reverse()\n    return a + 1\n", HOOK_POLICY),
+    ("bad", "f", HOOK + "    if not _VERIF_T:\n        for d in a:\n            d.sort(axis=0)\n    return a + 1\n", HOOK_POLICY),
+    ("bad", "f", HOOK + "    if _VERIF_T is not None:\n        _VERIF_T.append(len(a))\n        a.sort()\n    return a + 1\n", HOOK_POLICY),
+    ("bad", "f", "_VERIF_T = []\ndef f(a):\n    if _VERIF_T is not None:\n        _VERIF_T.append(len(a))\n    return a + 1\n", HOOK_POLICY),
+    ("bad", "f", HOOK + "    return a + len(_VERIF_T or [])\n", HOOK_POLICY),
+    ("bad", "f", HOOK + "    _VERIF_T = a\n    if _VERIF_T is not None:\n        _VERIF_T.append(len(a))\n", HOOK_POLICY),
+    # --- R6: decorators, module-level rebinding, conditional / repeated definitions, `__init__.py`
+    ("refused", "f", "def _d(g):\n    def w(a):\n        a.sort()\n        return g(a)\n    return w\n@_d\ndef f(a):\n    return a\n"),
+    ("refused", "f", "def f(a):\n    return a\n_f = f\ndef _w(a):\n    a.sort()\n    return _f(a)\nf = _w\n"),
+    ("refused", "f", "def _w(g):\n    return lambda a: g(a.sort())\ndef f(a):\n    return a\nf = _w(f)\n"),
+    ("refused", "f", "def f(a):\n    return a\ndef f(a):\n    a.sort()\n"),
+    ("refused", "f", "import sys\nif sys.version_info > (3,):\n    def f(a):\n        a.sort()\n"),
+    ("refused", "f", "f = lambda a: a.sort()\n"),
+    ("refused", "g", "def g(a):\n    return a\nf = lambda a: a.sort()\n"),
+    ("refused", "f", "def f(a):\n    return a\nglobals().update(f=lambda a: a.sort())\n"),
+    ("refused", "f", NPI + "np.seterr(all='ignore')\ndef f(a):\n    return a + 1\n"),
+    ("refused", "f", "def f(a):\n    def _d(g):\n        return g\n    @_d\n    def h(x):\n        x.sort()\n    h(a)\n"),
+    ("refused", "C.m", "def _d(c):\n    return c\n@_d\nclass C:\n    def m(self, a):\n        return a\n"),
+    ("refused", "C.m", "import functools\nclass C:\n    @functools.cache\n    def m(self, a):\n        return a\n"),
+    ("refused", "C.m", "class C:\n    def m(self, a):\n        return a\n    def _w(self, a):\n        a.sort()\n    m = _w\n"),
+    ("refused", "C.m", "class C(metaclass=type):\n    def m(self, a):\n        return a\n"),
+    ("refused", "f", "class _P:\n    def __init__(self, a):\n        self.a = a\n    def go(self):\n        return self.a\n    go = property(go)\ndef f(a):\n    return _P(a).go\n"),
+    ("good", "C.m", "from abc import abstractmethod\nclass C:\n    @property\n    def p(self):\n        return self._p\n    @p.setter\n    def p(self, v):\n        self._p = v\n    @staticmethod\n    def s(a):\n        return a + 1\n    @abstractmethod\n    def t(self):\n        pass\n    def m(self, a):\n        self.p = a.sum()\n        return C.s(a), self.p\n"),
+    ("good", "C.m", "from lib import reviewed\n@reviewed(version='1')\nclass C:\n    def m(self, a):\n        return a + 1\n", HOOK_POLICY),
+    ("refused", "C.m", "from lib import reviewed\n@reviewed(version='2')\nclass C:\n    def m(self, a):\n        return a + 1\n", HOOK_POLICY),
+    ("bad", "__init__.heat", {"__init__": "from .heat import *\nfrom .heat import heat as _heat\n\n\ndef heat(a):\n    a.sort(axis=0)\n    return _heat(a)\n",
+                              "heat": "__all__ = ['heat']\ndef heat(a):\n    return a + 1\n"}),
+    ("refused", "heat.heat", {"__init__": "from .heat import heat\nfrom .wrap import wrap\nheat = wrap(heat)\n",
+                              "heat": "def heat(a):\n    return a + 1\n", "wrap": "def wrap(g):\n    return lambda a: g(a.sort())\n"}),
+    ("refused", "heat.heat", {"__init__": "from .heat import heat\nfrom .impl import _inplace as heat2\n",
+                              "heat": "def heat(a):\n    return a + 1\n", "impl": "def _inplace(a):\n    a.sort()\n"}),
+    ("good", "heat.heat", {"__init__": "from ._version import __version__\nfrom .heat import *\nfrom .sub import helper\n__all__ = ['helper']\n",
+                           "heat": "from persim import helper\n__all__ = ['heat']\ndef heat(a):\n    return helper(a) + 1\n",
+                           "sub": "import numpy as np\ndef helper(a):\n    return np.copy(a)\n", "_version": "__version__ = '1'\n"}),
+    ("refused", "f", "def _install():\n    globals()['f'] = lambda a: a.sort()\ndef f(a, _p=_install()):\n    return a\n"),
+    ("refused", "f", "def _install():\n    return int\ndef f(a: _install()):\n    return a\n"),
+    ("refused", "C.m", "def _mk():\n    return object\nclass C(_mk()):\n    def m(self, a):\n        return a\n"),
+    ("good", "f", NPI + "from typing import Optional, List\ndef f(a: Optional[List[float]], order=np.array([0.5, 1]), top: float = np.inf) -> float:\n    return a[0] + top\n"),
+    # --- medium items
+    ("bad", "f", "def f(a):\n    b = sum([[a]], [])\n    b[0][0] = 1\n"),
+    ("bad", "f", "def f(a):\n    sum([a], [])[0][:, 1] += 1.0\n"),
+    ("good", "f", "def f(a):\n    s = sum(x[0] for x in a)\n    t = sum(len(x) for x in a)\n    return s + t\n"),
+    ("bad", "f", NPI + "def f(a):\n    return np.median(a, None, None, True)\n"),
+    ("bad", "f", NPI + "def f(a, ow):\n    return np.median(a, 0, None, ow)\n"),
+    ("bad", "f", NPI + "def f(a):\n    return np.percentile(a, 50, None, None, True)\n"),
+    ("bad", "f", NPI + "def f(a):\n    return np.quantile(a, 0.5, None, None, True)\n"),
+    ("good", "f", NPI + "def f(a):\n    return np.median(a, None, None, False), np.percentile(a, 50, None, None, False), np.median(a, 0)\n"),
+    ("bad", "f", "def f(a):\n    a[~0][:] = 0.0\n"),
+    ("bad", "f", "def f(a, k):\n    b = a[~k]\n    b[:] = 0\n"),
+    ("bad", "f", "def f(a, k):\n    b = a[k == 1]\n    b[:] = 0\n"),
+    ("bad", "f", "def f(dgms, normalize):\n    dgms[normalize == True][:, 1] += 1.0\n"),
+    ("bad", "f", "def f(a, lo):\n    b = a[a[1:] == lo]\n    b[0] = 1\n"),
+    ("bad", "f", NPI + "def f(d, x):\n    b = d[np.isfinite(x)]\n    b[0] = 1\n"),
+    ("good", "f", NPI + "def f(a):\n    b = a[~np.isinf(a[:, 1])]\n    c = a[np.isfinite(a[:, 1]), :]\n    d = a[~np.any(a == np.inf, axis=1)]\n    e = a[(a[:, 1] > 0) & (a[:, 0] < 1)]\n    for x in (b, c, d, e):\n        x[0] = 1\n    return b, c, d, e\n"),
+    ("bad", "f", "class _S:\n    def __init__(self, a):\n        self.a = a\n    def __enter__(self):\n        self.a[:, 1] -= self.a[:, 0]\n        return self.a\n    def __exit__(self, *e):\n        return False\ndef f(a):\n    with _S(a) as s:\n        pass\n"),
+    ("bad", "f", "class _A:\n    def __init__(self, a):\n        self.a = a\n    def __add__(self, v):\n        self.a += v\n        return self\ndef f(a):\n    return (_A(a) + 1).a\n"),
+    ("bad", "f", "class _A:\n    def __init__(self, a):\n        self.a = a\n    def __len__(self):\n        self.a.sort()\n        return 1\ndef f(a):\n    return len(_A(a))\n"),
+    ("bad", "f", "class _A:\n    def __init__(self, a):\n        self.a = a\n    def __getitem__(self, i):\n        self.a.sort()\n        return self.a[i]\ndef f(a):\n    return _A(a)[0]\n"),
+    ("bad", "f", "class S:\n    def __init__(self, a):\n        self.a = a\n    def __enter__(self):\n        return self.a\n    def __exit__(self, *e):\n        return False\ndef f(a):\n    with S(a) as s:\n        s[0] = 1\n"),
+    ("good", "f", NPI + "class _A:\n    def __init__(self, a):\n        self.a = np.copy(a)\n    def go(self):\n        self.a.sort()\n        return self.a\ndef f(a):\n    return _A(a).go()\n"),
+    ("good", "f", NPI + "class S:\n    def __init__(self, a):\n        self.a = np.copy(a)\n    def __enter__(self):\n        return self.a\n    def __exit__(self, *e):\n        return False\ndef f(a):\n    with S(a) as s:\n        s[0] = 1\n        return s\n"),
+    ("refused", "f", "_C, _N = [], 0\ndef f(a):\n    _C.append(1)\n    return len(_C)\n"),
+    ("refused", "f", "try:\n    _C = []\nexcept Exception:\n    _C = None\ndef f(a):\n    _C.append(a)\n    return len(_C)\n"),
+    ("bad", "f", "from somewhere import *\ndef f(a):\n    _CALLS.append(1)\n    return a + len(_CALLS)\n"),
+    ("bad", "f", "def f(a):\n    return a + _UNBOUND\n"),
+    ("bad", "f", "def f(a):\n    def g(b=a.T):\n        b[0] = 1\n    g()\n"),
+    ("bad", "f", "def f(a):\n    (lambda b=a.T: b.sort())()\n"),
+    ("bad", "f", NPI + "def f(a):\n    def g(b=a):\n        b[0] = 1\n    a = np.copy(a)\n    g()\n"),
+    ("bad", "f", NPI + "def g(x, out=np.put):\n    out(x, [0], 1)\ndef f(a):\n    g(a)\n"),
+    ("bad", "f", NPI + "def f(a, kernel=np.ndarray.sort):\n    kernel(a)\n"),
+    ("good", "f", NPI + "def g(x, top=np.inf, conv=np.asarray):\n    return conv(x) + top\ndef f(a):\n    def h(b=np.copy(a)):\n        b[0] = 1\n        return b\n    return g(a), h()\n"),
+    ("bad", "f", "from sklearn.metrics import pairwise_distances\ndef f(a):\n    def m(u, v):\n        u.sort()\n        return 0.0\n    return pairwise_distances(a, a, metric=m)\n"),
+    ("bad", "f", "import bisect\ndef f(a):\n    return bisect.bisect_left(a, 0, key=lambda r: r.sort())\n"),
+    ("bad", "f", "def f(a):\n    print(1, file=a)\n"),
+    ("good", "f", "def f(a, kernel=len):\n    return callable(kernel), isinstance(kernel, str), str(kernel), kernel(a)\n"),
+    ("bad", "f", NPI + "def f(a):\n    np.random.shuffle(x=a)\n", {"constants": [], "rng_allowed": ["snippet.f"]}),
+    ("bad", "f", "import random\ndef f(a, b):\n    random.choice([a, b])[0, 0] = 1\n", {"constants": [], "rng_allowed": ["snippet.f"]}),
+    ("good", "f", "import random\n" + NPI + "def f(a, b):\n    c = np.copy(random.choice([a, b]))\n    c[0, 0] = 1\n    np.random.shuffle(c)\n    return c\n", {"constants": [], "rng_allowed": ["snippet.f"]}),
 ]
